@@ -131,6 +131,18 @@ let split_bars (line : string) : string list = List.map String.trim (String.spli
 
 let check _ln line =
   match split_bars line with
+  | [lhs; mid; obs] when String.length lhs > 1 && lhs.[0] = 'Q' ->
+    (match split_ws lhs with
+     | "Q" :: toks ->
+       let (x, r1) = parse_item toks in
+       let (y, r2) = parse_item (split_ws mid) in
+       if r1 <> [] || r2 <> [] then Some "trailing tokens in tree"
+       else
+         let m = string_of_bool01 (equal x y) in
+         if m <> obs then Some (Printf.sprintf "Equal: model=%s impl=%s" m obs)
+         else if equal y x <> equal x y then Some "model equal not symmetric"
+         else None
+     | _ -> Some "unparsable Q line")
   | [lhs; mid; obs_tree] ->
     (match split_ws lhs with
      | "T" :: toks ->
